@@ -143,12 +143,15 @@ def rand_csv_cells(rng):
     return stream, how, cells
 
 
-def regular_single_slice(rng):
-    res = rng.choice([1, 3, 6, 12])
-    rows = gen.layout_regular(rng, res=res, n_periods=rng.randrange(1, 6), n_lags=rng.randrange(1, 6),
+def regular_single_slice(rng, i=None):
+    # resolutions and start months are covered systematically (every resolution x every start month in
+    # 48 consecutive cases): the inferred period resolution depends on the lengths of the first months
+    res = rng.choice([1, 3, 6, 12]) if i is None else [1, 3, 6, 12][i % 4]
+    n_periods = rng.randrange(2, 6) if rng.random() < 0.9 else 1
+    rows = gen.layout_regular(rng, res=res, n_periods=n_periods, n_lags=rng.randrange(1, 6),
                               shape=rng.choice(["square", "triangle", "ragged"]))
     # any start month (layout_regular aligns starts to multiples of res; shift by a few months)
-    shift = rng.randrange(0, 12)
+    shift = rng.randrange(0, 12) if i is None else ((i // 4) % 12 + 1 - rows[0][0].month) % 12   # start month (i//4)%12+1
     rows = [(gen.add_months_int(ps, shift), gen.add_months_int(pe, shift, end=True),
              [gen.add_months_int(e, shift, end=True) for e in evs]) for ps, pe, evs in rows]
     metas, _ = rand_metas(rng, 1)
@@ -386,7 +389,7 @@ def correspondence(ctx):
 
         # (ii) array data frame
         for i in range(n_arr):
-            res, fields, md, cells = regular_single_slice(rng)
+            res, fields, md, cells = regular_single_slice(rng, i)
             t = Triangle(cells)
             wire = w_cells(t.cells)
             field = fields[0]
